@@ -802,3 +802,15 @@ Lemma register_before_response_refuted :
   find current_variant redis_backend (run current_variant redis_backend 300000 init (lost_response_history false)) 2 7 = Found 1 10 /\
   find current_variant redis_backend (run current_variant redis_backend 300000 init (lost_response_history true)) 2 7 = Absent.
 Proof. split; vm_compute; reflexivity. Qed.
+
+(* graceful node shutdown: SessionManager.Close() empties the registry (= Kick n x 0 for every client: no store call), then the
+   adapters' deferred CloseConnection runs for every connection: its UnregisterConnection does not depend on the registry /
+   connMap any more holding the connection.  A CloseConnection that skips the un-registration then (seeded C08-23) leaves the
+   record of the stopped node's client in place: the history without the Close's effect *)
+Definition shutdown_history (close_unregisters : bool) : list event :=
+  [Connect 1 10; AuthOK 1 10 7; Heartbeat 1 10; Kick 1 7 0] ++ (if close_unregisters then [Close 1 10] else []) ++ [Tick 1000].
+
+Lemma shutdown_close_must_unregister :
+  find current_variant redis_backend (run current_variant redis_backend 300000 init (shutdown_history true)) 2 7 = Absent /\
+  find current_variant redis_backend (run current_variant redis_backend 300000 init (shutdown_history false)) 2 7 = Found 1 10.
+Proof. split; vm_compute; reflexivity. Qed.
